@@ -5,6 +5,7 @@ package batchprocessor
 import (
 	"context"
 	"fmt"
+	"net"
 	"runtime"
 	"sync"
 	"testing"
@@ -13,7 +14,10 @@ import (
 	"go.opentelemetry.io/collector/client"
 	"go.opentelemetry.io/collector/component/componenttest"
 	"go.opentelemetry.io/collector/pdata/pcommon"
+	"go.opentelemetry.io/collector/consumer"
 	"go.opentelemetry.io/collector/pdata/plog"
+	"go.opentelemetry.io/collector/pdata/pmetric"
+	"go.opentelemetry.io/collector/pdata/ptrace"
 	"go.opentelemetry.io/collector/processor/batchprocessor/internal/metadata"
 	"go.opentelemetry.io/collector/processor/processortest"
 )
@@ -51,18 +55,74 @@ func TestVerifC17Concurrent(t *testing.T) {
 			t.Fatal(err)
 		}
 		sink := &vcSink{}
-		p, err := newLogsBatchProcessor(processortest.NewNopSettings(metadata.Type), sink, cfg)
-		if err != nil {
-			t.Fatal(err)
-		}
-		if err := p.Start(context.Background(), componenttest.NewNopHost()); err != nil {
-			t.Fatal(err)
+		kind := []string{"logs", "traces", "metrics"}[c%3]
+		set := processortest.NewNopSettings(metadata.Type)
+		var send func(ctx context.Context, ids []int, res int) error
+		var shutdown func(context.Context) error
+		switch kind {
+		case "logs":
+			p, err := newLogsBatchProcessor(set, sink, cfg)
+			if err != nil {
+				t.Fatal(err)
+			}
+			if err := p.Start(context.Background(), componenttest.NewNopHost()); err != nil {
+				t.Fatal(err)
+			}
+			shutdown = p.Shutdown
+			send = func(ctx context.Context, ids []int, res int) error {
+				ld := plog.NewLogs()
+				rl := ld.ResourceLogs().AppendEmpty()
+				rl.Resource().Attributes().PutInt("k", int64(res))
+				sl := rl.ScopeLogs().AppendEmpty()
+				for _, id := range ids {
+					sl.LogRecords().AppendEmpty().SetTimestamp(pcommon.Timestamp(id))
+				}
+				return p.ConsumeLogs(ctx, ld)
+			}
+		case "traces":
+			p, err := newTracesBatchProcessor(set, sink, cfg)
+			if err != nil {
+				t.Fatal(err)
+			}
+			if err := p.Start(context.Background(), componenttest.NewNopHost()); err != nil {
+				t.Fatal(err)
+			}
+			shutdown = p.Shutdown
+			send = func(ctx context.Context, ids []int, res int) error {
+				td := ptrace.NewTraces()
+				rs := td.ResourceSpans().AppendEmpty()
+				rs.Resource().Attributes().PutInt("k", int64(res))
+				ss := rs.ScopeSpans().AppendEmpty()
+				for _, id := range ids {
+					ss.Spans().AppendEmpty().SetStartTimestamp(pcommon.Timestamp(id))
+				}
+				return p.ConsumeTraces(ctx, td)
+			}
+		default:
+			p, err := newMetricsBatchProcessor(set, sink, cfg)
+			if err != nil {
+				t.Fatal(err)
+			}
+			if err := p.Start(context.Background(), componenttest.NewNopHost()); err != nil {
+				t.Fatal(err)
+			}
+			shutdown = p.Shutdown
+			send = func(ctx context.Context, ids []int, res int) error {
+				md := pmetric.NewMetrics()
+				rm := md.ResourceMetrics().AppendEmpty()
+				rm.Resource().Attributes().PutInt("k", int64(res))
+				dps := rm.ScopeMetrics().AppendEmpty().Metrics().AppendEmpty().SetEmptyGauge().DataPoints()
+				for _, id := range ids {
+					dps.AppendEmpty().SetTimestamp(pcommon.Timestamp(id))
+				}
+				return p.ConsumeMetrics(ctx, md)
+			}
 		}
 		producers := 2 + rnd.IntN(5)
 		perProducer := 1 + rnd.IntN(6)
 		out.Linef("case %d", c)
-		out.Linef("op trial limit=0 max=%d producers=%d requests=%d sbs=%d timeout_ms=%d keys=%d", cfg.SendBatchMaxSize, producers,
-			perProducer, cfg.SendBatchSize, cfg.Timeout.Milliseconds(), len(cfg.MetadataKeys))
+		out.Linef("op trial limit=0 max=%d producers=%d requests=%d sbs=%d timeout_ms=%d keys=%d kind=%s", cfg.SendBatchMaxSize, producers,
+			perProducer, cfg.SendBatchSize, cfg.Timeout.Milliseconds(), len(cfg.MetadataKeys), kind)
 		type sent struct {
 			key string
 			ids []int
@@ -91,19 +151,30 @@ func TestVerifC17Concurrent(t *testing.T) {
 				<-start
 				for r := 0; r < perProducer; r++ {
 					g := groups[plan[i][r]]
-					ld := plog.NewLogs()
-					sl := ld.ResourceLogs().AppendEmpty().ScopeLogs().AppendEmpty()
+					res := 1 + (i*perProducer+r)%99 // resource identity of this request, part of every item's token
 					var ids []int
 					for k := 0; k < sizes[i][r]; k++ {
-						sl.LogRecords().AppendEmpty().SetTimestamp(pcommon.Timestamp(base[i][r] + k))
 						ids = append(ids, base[i][r]+k)
 					}
 					md := map[string][]string{}
 					if g.set {
 						md[[]string{"tenant", "Tenant", "TENANT"}[(i+r)%3]] = g.vals
 					}
-					ctx := client.NewContext(context.Background(), client.Info{Metadata: client.NewMetadata(md)})
-					err := p.ConsumeLogs(ctx, ld)
+					// what else a caller's client.Info carries must not reach any export context
+					info := client.Info{}
+					if (i+r)%2 == 0 {
+						md["x-other"] = []string{fmt.Sprintf("o%d", i)}
+						info.Auth = vcAuth{}
+					}
+					if (i+r)%3 == 0 {
+						info.Addr = &net.IPAddr{IP: net.IPv4(10, 0, byte(i), byte(r))}
+					}
+					info.Metadata = client.NewMetadata(md)
+					ctx := client.NewContext(context.Background(), info)
+					err := send(ctx, ids, res)
+					for k := range ids {
+						ids[k] = ids[k]*100 + res
+					}
 					key := g.name
 					if len(cfg.MetadataKeys) == 0 {
 						key = "-"
@@ -119,7 +190,7 @@ func TestVerifC17Concurrent(t *testing.T) {
 		}
 		close(start)
 		wg.Wait()
-		if err := p.Shutdown(context.Background()); err != nil {
+		if err := shutdown(context.Background()); err != nil {
 			t.Fatal(err)
 		}
 		for i := range logs {
@@ -143,6 +214,13 @@ func TestVerifC17Concurrent(t *testing.T) {
 		out.Flush()
 	}
 }
+
+type vcAuth struct{}
+
+func (vcAuth) GetAttribute(string) any     { return "caller" }
+func (vcAuth) GetAttributeNames() []string { return []string{"who"} }
+
+var _ consumer.Logs = (*vcSink)(nil)
 
 // vKeyTok: group token as the sink prints it (values joined by "."; no value = "-"; the empty value = an empty token is
 // not printable in the line protocol, so it is spelled "<empty>")
